@@ -306,7 +306,10 @@ def recon(dp, case, bf_mask=None, b=None, **over):
 
 def capture(dp, case, bf_mask, **over):
     """run the real reconstruct with max_batch_size=1 and record every call of the real kernel method"""
-    orig = type(dp)._return_kernel_contributions.__get__(dp)
+    meth = getattr(type(dp), "_return_kernel_contributions", None)
+    if meth is None:      # the private kernel method is gone (refactoring): no internal stage, public result only
+        return None, None, recon(dp, case, bf_mask=bf_mask, b=1, **over)
+    orig = meth.__get__(dp)
     calls = []
 
     def wrap(*args):
@@ -318,7 +321,7 @@ def capture(dp, case, bf_mask, **over):
     try:
         stack1 = recon(dp, case, bf_mask=bf_mask, b=1, **over)
     finally:
-        del dp.__dict__["_return_kernel_contributions"]
+        dp.__dict__.pop("_return_kernel_contributions", None)
     return orig, calls, stack1
 
 
@@ -434,35 +437,56 @@ def run_problem(ctx, drv, case):
     # ---- bf context: index mapping (exact stream + predicate) --------------------------
     cm_flat = [bool(x) for x in dp.bf_mask.flatten().tolist()]
     sm_flat = [bool(x) for x in (submask if submask is not None else dp.bf_mask).flatten().tolist()]
-    bf = dp._return_bf_context(submask if submask is not None else dp.bf_mask)
-    impl_ctx = {"i": bf.bf_inds_i.tolist(), "j": bf.bf_inds_j.tolist(), "n": int(bf.num_bf), "map": bf.vbf_index_mapping.tolist()}
+    # (internal stage of a PRIVATE helper: compared with the model if the helper still exists in this form, never a predicate;
+    # what the mapping means at the public API is judged by the recombination and parallax predicates)
     m = drv.ask({"op": "bfcontext", "cols": gpts[1], "cmask": [int(x) for x in cm_flat], "sub": [int(x) for x in sm_flat]})
-    ctx.count()
-    if m.get("ok") != impl_ctx:
-        ctx.disagree("bfcontext", case, m, {"ok": impl_ctx}, note="_return_bf_context")
-    cpos = [p for p, v in enumerate(cm_flat) if v]
-    spos = [p for p, v in enumerate(sm_flat) if v]
-    if [cpos[t] for t in impl_ctx["map"] if t < len(cpos)] != spos or impl_ctx["map"] != sub:
-        ctx.pred_fail("mapping", "vbf_index_mapping does not map the sub-mask pixels to their stack rows", case,
-                      observed=impl_ctx["map"], required=sub)
+    impl_ctx = {"map": list(sub)}
+    try:
+        bf = dp._return_bf_context(submask if submask is not None else dp.bf_mask)
+        impl_ctx = {"i": bf.bf_inds_i.tolist(), "j": bf.bf_inds_j.tolist(), "n": int(bf.num_bf), "map": bf.vbf_index_mapping.tolist()}
+    except (AttributeError, TypeError) as e:
+        ctx.extra["internal-stage-skipped:_return_bf_context"] = f"private helper not usable in its known form ({type(e).__name__})"
+    else:
+        ctx.count()
+        if m.get("ok") != impl_ctx:
+            ctx.disagree("bfcontext", case, m, {"ok": impl_ctx}, note="_return_bf_context")
+    if m.get("ok", {}).get("map") != sub:
+        ctx.disagree("bfcontext", case, m, {"map": sub}, note="model mapping vs the stack rows of the sub-mask")
 
     # ---- capture the per-pixel factors from the real kernel method ----------------------
     orig, calls, stack_b1 = capture(dp, case, submask)
-    if len(calls) != n:
-        ctx.disagree("capture", case, n, len(calls), note="number of single-pixel kernel calls")
-        return
-    K, P, G = [], [], []
-    for args, num, pw in calls:
-        a = list(args)
-        a[2] = torch.ones_like(a[2])
-        k = orig(*a)[0][0]
-        K.append(k.detach().to(torch.complex128).numpy().ravel())
-        P.append(pw.detach().double().numpy().ravel() if pw is not None else np.zeros(0))
-        G.append(num[0].detach().to(torch.complex128).numpy().ravel())
-    args0 = calls[0][0]
-    bfc, qxa, qya, probe = args0[0], args0[5], args0[6], args0[7]
-    kxa, kya, grad_k, sign_q = args0[3], args0[4], args0[8], args0[9]
-    W = float(probe[bfc.bf_mask].abs().double().square().sum())
+    have_cap = calls is not None
+    ii_all, jj_all = torch.nonzero(dp.bf_mask, as_tuple=True)
+    pix_sub = [(int(ii_all[s_]), int(jj_all[s_])) for s_ in sub]
+    if have_cap:
+        try:
+            if len(calls) != n:
+                ctx.disagree("capture", case, n, len(calls), note="number of single-pixel kernel calls")
+                return
+            K, P, G = [], [], []
+            for args, num, pw in calls:
+                a = list(args)
+                a[2] = torch.ones_like(a[2])
+                k = orig(*a)[0][0]
+                K.append(k.detach().to(torch.complex128).numpy().ravel())
+                P.append(pw.detach().double().numpy().ravel() if pw is not None else np.zeros(0))
+                G.append(num[0].detach().to(torch.complex128).numpy().ravel())
+            args0 = calls[0][0]
+            bfc, qxa, qya, probe = args0[0], args0[5], args0[6], args0[7]
+            kxa, kya, grad_k, sign_q = args0[3], args0[4], args0[8], args0[9]
+            W = float(probe[bfc.bf_mask].abs().double().square().sum())
+        except (AttributeError, TypeError, IndexError, ValueError) as e:   # the private method no longer has its known form
+            ctx.extra["internal-stage-skipped:_return_kernel_contributions"] = f"private method not usable in its known form ({type(e).__name__})"
+            have_cap = False
+    else:
+        ctx.extra["internal-stage-skipped:_return_kernel_contributions"] = "private method not found; public results only"
+    if not have_cap:
+        # library-level stand-ins for what the predicates need: the scan-frequency grid and the aperture weight of the mask
+        K = P = G = probe = grad_k = sign_q = kxa = kya = bfc = None
+        qxa = torch.fft.fftfreq(N, case["sx"] / u, dtype=torch.float32)[:, None].expand(N, M)
+        qya = torch.fft.fftfreq(M, case["sy"] / u, dtype=torch.float32)[None, :].expand(N, M)
+        W = float(sum(aperture_weights(case, gpts, pix_sub)[0]))
+        ctx.dist["capture:public-results-only"] += 1
     env = butterworth(qxa.numpy(), qya.numpy(), case["ql"], case["qh"], case["order"]).ravel()
     if tuple(qxa.shape) != (N, M):
         ctx.disagree("grid", case, [N, M], list(qxa.shape), note="upsampled grid shape")
@@ -476,16 +500,16 @@ def run_problem(ctx, drv, case):
     # ---- q-grid stream: model `qGrid` vs the grid the real code hands to the kernel method ----
     ans = drv.ask({"op": "qgrid", "N": N, "M": M, "dx": fl([case["sx"] / u])[0], "dy": fl([case["sy"] / u])[0]})
     ctx.count()
-    for nm, real_q in (("qx", qxa), ("qy", qya)):
+    for nm, real_q in ((("qx", qxa), ("qy", qya)) if have_cap else ()):
         ok, e = close(real_q.double().numpy().ravel(), unfl(ans["ok"][nm]), 2e-6)
         ctx.stat_max("qgrid_rel", e)
         if not ok:
             ctx.disagree("qgrid", case, summarize(unfl(ans["ok"][nm])), summarize(real_q.numpy()), note=f"spatial_frequencies {nm}")
 
     # ---- `subProblem`: the factors of a sub-mask pixel are those of the same detector pixel in the full mask ----
-    if case["sub"] is not None:
+    if case["sub"] is not None and have_cap:
         orig_f, calls_f, _ = capture(dp, case, None)
-        for j, srow in enumerate(sub):
+        for j, srow in enumerate(sub if calls_f is not None and len(calls_f) == n_full else []):
             a = list(calls_f[srow][0])
             a[2] = torch.ones_like(a[2])
             kf = orig_f(*a)[0][0].detach().to(torch.complex128).numpy().ravel()
@@ -502,6 +526,10 @@ def run_problem(ctx, drv, case):
     # conditioning of the float32 parallax phase exp(-i grad.q): its rounding error is eps32*|phase|
     cond = 1.0
     if kernel == "prlx":
+        if not have_cap:       # the gradient from the model (translated formula) instead of the captured one
+            o_ = drv.ask(dict(kgeom_req(case, dp, canon_ab(case["ab"].items()), case["rot"]), op="kernel_full", kernel="prlx",
+                              pix_i=[q_[0] for q_ in pix_sub], pix_j=[q_[1] for q_ in pix_sub], which=[]))["ok"]
+            grad_k = torch.tensor(np.stack([unfl(o_["gx"]), unfl(o_["gy"])], axis=1))
         ph = (grad_k[:, 0].abs().max() * qxa.abs().max() + grad_k[:, 1].abs().max() * qya.abs().max())
         cond = max(1.0, float(ph) / 4.0)
         ctx.stat_max("parallax_phase_max_rad", float(ph))
@@ -529,7 +557,7 @@ def run_problem(ctx, drv, case):
                       observed={"rel_diff": e}, required="identical")
 
     # ---- kernel-factor stream (modelled prlx / icom operators) --------------------------
-    if kernel in ("prlx", "icom"):
+    if kernel in ("prlx", "icom") and have_cap:
         reqs = []
         for t in range(n):
             if kernel == "prlx":
@@ -551,84 +579,85 @@ def run_problem(ctx, drv, case):
                              note=f"{kernel} operator of BF pixel {t}: rel diff {e:.3g}")
                 break
 
-    # ---- the driver on the captured factors: every schedule ----------------------------
-    schedules, labels = [], []
-    cost_one = n * N * M * (N + M)
-    budget = 6.0e6 if not ctx.thorough() else 2.0e7
-    bs = list(range(1, n + 1))
-    if cost_one * len(bs) > budget:
-        keep = max(2, int(budget // cost_one))
-        rng_b = _rng(case["sched_seed"])
-        mid = rng_b.sample(bs[1:-1], max(0, min(len(bs) - 2, keep - 2))) if len(bs) > 2 else []
-        bs = sorted(set([1, n] + mid))
-        ctx.dist["driver-schedules:subset"] += 1
-    else:
-        ctx.dist["driver-schedules:all-b"] += 1
-    for b in bs:
-        real_sched = [[int(x) for x in batch] for batch in SimpleBatcher(n, batch_size=b, shuffle=False)]
-        ans = drv.ask({"op": "chunks", "n": n, "b": b})
-        ctx.count()
-        if ans.get("ok") != real_sched:
-            ctx.disagree("chunks", dict(case, b=b), ans, real_sched, note="SimpleBatcher schedule")
-        schedules.append(real_sched)
-        labels.append(b)
-    # one arbitrary partition in arbitrary order (model side only; compared with the full-batch result)
-    g = _rng(case["sched_seed"] ^ 0x55)
-    perm = g.shuffle(list(range(n)))
-    arb, pos = [], 0
-    while pos < n:
-        k = g.randint(1, max(1, n - pos))
-        arb.append(perm[pos:pos + k])
-        pos += k
-    schedules.append(arb)
-    labels.append("perm")
-    req = {"op": "reconstruct", "kernel": kernel, "r": r, "c": c, "u": u, "stack": [fl(s) for s in stack],
-           "mapping": [int(x) for x in impl_ctx["map"]],
-           "K": [{"re": fl(k.real), "im": fl(k.imag)} for k in K], "P": [fl(p) for p in P], "W": fl([W])[0],
-           "env": fl(env), "eps": fl([case["eps"]])[0], "schedules": schedules, "want_G": True}
-    ans = drv.ask(req)
-    if "ok" not in ans:
-        raise RuntimeError(f"driver: {ans}")
-    for t, gm in enumerate(ans["ok"]["G"]):
-        mg = unfl(gm["re"]) + 1j * unfl(gm["im"])
-        ok, e = close(G[t], mg, TOL_CORR)
-        ctx.stat_max("numerator_rel", e)
-        ctx.count()
-        if not ok:
-            ctx.disagree("numerators", dict(case, item=t), summarize(np.abs(mg)), summarize(np.abs(G[t])),
-                         note=f"first-pass numerator of BF pixel {t}: rel diff {e:.3g}")
-            break
-    model_full = None
-    for lab, run in zip(labels, ans["ok"]["runs"]):
-        if any(x is None for x in run["stack"]):
-            ctx.disagree("reconstruct", dict(case, b=lab), "undefined rows", "defined", note="model left rows unwritten")
-            continue
-        ms = np.array([unfl(row) for row in run["stack"]])
-        target = impl[lab] if lab != "perm" else ref
-        ok, e = close(target, ms, TOL_CORR, floor)
-        ctx.stat_max("reconstruct_rel", e)
-        ctx.count()
-        if not ok:
-            ctx.disagree("reconstruct", dict(case, b=lab), summarize(ms), summarize(target),
-                         note=f"corrected_stack, schedule {lab}: rel diff {e:.3g}")
-            break
-        if lab == n:
-            model_full = ms
-            mbf = unfl(run["bf"])
-            if not maxabs(ref.sum(axis=0) - mbf) <= TOL_CORR * n * max(maxabs(ms), floor, 1e-30) + 1e-12:
-                ctx.disagree("corrected_bf", case, summarize(mbf), summarize(ref.sum(axis=0)), note="sum over the stack")
-    if model_full is not None:
-        # by `batch_invariant` the model result is the same for every schedule: compare the remaining b's with it
-        for b in range(1, n + 1):
-            if b in labels:
+    if have_cap:
+        # ---- the driver on the captured factors: every schedule ----------------------------
+        schedules, labels = [], []
+        cost_one = n * N * M * (N + M)
+        budget = 6.0e6 if not ctx.thorough() else 2.0e7
+        bs = list(range(1, n + 1))
+        if cost_one * len(bs) > budget:
+            keep = max(2, int(budget // cost_one))
+            rng_b = _rng(case["sched_seed"])
+            mid = rng_b.sample(bs[1:-1], max(0, min(len(bs) - 2, keep - 2))) if len(bs) > 2 else []
+            bs = sorted(set([1, n] + mid))
+            ctx.dist["driver-schedules:subset"] += 1
+        else:
+            ctx.dist["driver-schedules:all-b"] += 1
+        for b in bs:
+            real_sched = [[int(x) for x in batch] for batch in SimpleBatcher(n, batch_size=b, shuffle=False)]
+            ans = drv.ask({"op": "chunks", "n": n, "b": b})
+            ctx.count()
+            if ans.get("ok") != real_sched:
+                ctx.disagree("chunks", dict(case, b=b), ans, real_sched, note="SimpleBatcher schedule")
+            schedules.append(real_sched)
+            labels.append(b)
+        # one arbitrary partition in arbitrary order (model side only; compared with the full-batch result)
+        g = _rng(case["sched_seed"] ^ 0x55)
+        perm = g.shuffle(list(range(n)))
+        arb, pos = [], 0
+        while pos < n:
+            k = g.randint(1, max(1, n - pos))
+            arb.append(perm[pos:pos + k])
+            pos += k
+        schedules.append(arb)
+        labels.append("perm")
+        req = {"op": "reconstruct", "kernel": kernel, "r": r, "c": c, "u": u, "stack": [fl(s) for s in stack],
+               "mapping": [int(x) for x in impl_ctx["map"]],
+               "K": [{"re": fl(k.real), "im": fl(k.imag)} for k in K], "P": [fl(p) for p in P], "W": fl([W])[0],
+               "env": fl(env), "eps": fl([case["eps"]])[0], "schedules": schedules, "want_G": True}
+        ans = drv.ask(req)
+        if "ok" not in ans:
+            raise RuntimeError(f"driver: {ans}")
+        for t, gm in enumerate(ans["ok"]["G"]):
+            mg = unfl(gm["re"]) + 1j * unfl(gm["im"])
+            ok, e = close(G[t], mg, TOL_CORR)
+            ctx.stat_max("numerator_rel", e)
+            ctx.count()
+            if not ok:
+                ctx.disagree("numerators", dict(case, item=t), summarize(np.abs(mg)), summarize(np.abs(G[t])),
+                             note=f"first-pass numerator of BF pixel {t}: rel diff {e:.3g}")
+                break
+        model_full = None
+        for lab, run in zip(labels, ans["ok"]["runs"]):
+            if any(x is None for x in run["stack"]):
+                ctx.disagree("reconstruct", dict(case, b=lab), "undefined rows", "defined", note="model left rows unwritten")
                 continue
-            ok, e = close(impl[b], model_full, TOL_CORR, floor)
+            ms = np.array([unfl(row) for row in run["stack"]])
+            target = impl[lab] if lab != "perm" else ref
+            ok, e = close(target, ms, TOL_CORR, floor)
             ctx.stat_max("reconstruct_rel", e)
             ctx.count()
             if not ok:
-                ctx.disagree("reconstruct", dict(case, b=b), summarize(model_full), summarize(impl[b]),
-                             note=f"corrected_stack, b={b} vs model (full batch): rel diff {e:.3g}")
+                ctx.disagree("reconstruct", dict(case, b=lab), summarize(ms), summarize(target),
+                             note=f"corrected_stack, schedule {lab}: rel diff {e:.3g}")
                 break
+            if lab == n:
+                model_full = ms
+                mbf = unfl(run["bf"])
+                if not maxabs(ref.sum(axis=0) - mbf) <= TOL_CORR * n * max(maxabs(ms), floor, 1e-30) + 1e-12:
+                    ctx.disagree("corrected_bf", case, summarize(mbf), summarize(ref.sum(axis=0)), note="sum over the stack")
+        if model_full is not None:
+            # by `batch_invariant` the model result is the same for every schedule: compare the remaining b's with it
+            for b in range(1, n + 1):
+                if b in labels:
+                    continue
+                ok, e = close(impl[b], model_full, TOL_CORR, floor)
+                ctx.stat_max("reconstruct_rel", e)
+                ctx.count()
+                if not ok:
+                    ctx.disagree("reconstruct", dict(case, b=b), summarize(model_full), summarize(impl[b]),
+                                 note=f"corrected_stack, b={b} vs model (full batch): rel diff {e:.3g}")
+                    break
     # corrected_bf property of the object
     recon(dp, case, bf_mask=submask, b=None)
     bf_prop = dp.corrected_bf.double().numpy().ravel()
@@ -637,9 +666,9 @@ def run_problem(ctx, drv, case):
                       observed=summarize(bf_prop), required=summarize(ref.sum(axis=0)))
 
     # ---- the kernel formulas inside the model (translated from the source) -----------------
-    run_kernel_full(ctx, drv, case, dp, {"K": K, "P": P, "W": W, "env": env, "bfc": bfc, "qxa": qxa, "qya": qya, "probe": probe,
+    run_kernel_full(ctx, drv, case, dp, None if not have_cap else {"K": K, "P": P, "W": W, "env": env, "bfc": bfc, "qxa": qxa, "qya": qya, "probe": probe,
                                          "grad_k": grad_k, "sign_q": sign_q, "kxa": kxa, "kya": kya, "calls": calls, "orig": orig},
-                    impl, sub, floor, cond, impl_ctx["map"], stack)
+                    impl, sub, floor, cond, sub, stack, pix_sub=pix_sub, qgrid=(qxa, qya))
 
     # ---- linearity in the stack ---------------------------------------------------------
     a = case["lin_a"]
@@ -668,9 +697,12 @@ def run_problem(ctx, drv, case):
         ka = gs.randint(1, n - 1)
         A = sorted(sub[t] for t in order_[:ka])
         B = sorted(sub[t] for t in order_[ka:])
-        p2 = probe.abs().double().square()
         ii, jj = torch.nonzero(dp.bf_mask, as_tuple=True)
-        wts = [float(p2[ii[s], jj[s]]) for s in range(n_full)]
+        if have_cap:
+            p2 = probe.abs().double().square()
+            wts = [float(p2[ii[s], jj[s]]) for s in range(n_full)]
+        else:   # independent float64 aperture weights
+            wts = aperture_weights(case, gpts, [(int(ii[s]), int(jj[s])) for s in range(n_full)])[0]
         WA, WB, WS = sum(wts[s] for s in A), sum(wts[s] for s in B), sum(wts[s] for s in sub)
         bA_, bB_ = gs.randint(1, len(A)), gs.randint(1, len(B))
         if min(WA, WB) <= 1e-3 * WS:
@@ -711,10 +743,56 @@ def _rng(seed):
     return Rng(seed)
 
 
+def run_reconstruct_full_only(ctx, drv, case, dp, impl, sub, floor, cond, mapping, stack, pix, qgrid, ab):
+    kernel, u = case["kernel"], case["u"]
+    r, c = case["scan"]
+    n, N, M = len(sub), u * r, u * c
+    lam = wavelength(case["E"])
+    base = kgeom_req(case, dp, ab, case["rot"])
+    base.update({"pix_i": [q[0] for q in pix], "pix_j": [q[1] for q in pix]})
+    o = drv.ask(dict(base, op="kernel_full", kernel="obf" if kernel == "ssb" else kernel, which=list(range(n)) if kernel == "ssb" else []))
+    if "ok" not in o:
+        raise RuntimeError(f"driver: {o}")
+    o = o["ok"]
+    qx64, qy64 = qgrid[0].double().numpy().ravel(), qgrid[1].double().numpy().ravel()
+    kxm, kym = unfl(o["kx"]), unfl(o["ky"])
+    ill = False
+    if kernel in GAMMA_KERNELS and not case["soft"]:
+        sa = case["semiangle"] * 1e-3
+        for t in range(n):
+            for sgn in (-1.0, 1.0):
+                al = np.hypot(qx64 + sgn * kxm[t], qy64 + sgn * kym[t]) * lam
+                ill |= bool((np.abs(al - sa) < 1e-5 * sa)[1:].any())
+    if kernel == "ssb":      # gamma/|gamma| where gamma is tiny or vanishes by symmetry cannot be judged without the internal stage
+        ill |= any(bool((np.sqrt(unfl(x))[1:] < 1e-4).any()) for x in o["P"])
+    if kernel == "prlx":
+        chi = unfl(o["chi"])
+        ill |= bool(((np.abs(np.sin(chi)) < 2e-5 * (1.0 + np.abs(chi))) & (chi != 0.0)).any()) and bool(case["flip"])
+    cost_one = n * N * M * (N + M)
+    if ill or cost_one > (3.0e6 if not ctx.thorough() else 1.0e7):
+        ctx.dist["kernel-full:end-to-end-skipped-" + ("ill-conditioned" if ill else "cost")] += 1
+        return
+    from quantem.diffractive_imaging.ptycho_utils import SimpleBatcher
+    sched = [[int(x) for x in batch] for batch in SimpleBatcher(n, batch_size=n, shuffle=False)]
+    ans = drv.ask(dict(base, op="reconstruct_full", kernel=kernel, mapping=[int(x) for x in mapping], stack=[fl(v) for v in stack],
+                       schedules=[sched]))
+    if "ok" not in ans:
+        raise RuntimeError(f"driver: {ans}")
+    ctx.dist["kernel-full:end-to-end"] += 1
+    run = ans["ok"]["runs"][0]
+    ms = np.array([unfl(row) for row in run["stack"]])
+    okk, e = close(impl[n], ms, TOL_CORR * cond, floor)
+    ctx.stat_max("reconstruct_full_rel_over_cond", e / cond)
+    ctx.count()
+    if not okk:
+        ctx.disagree("reconstruct-full", dict(case, b=n, stream="kernel-full"), summarize(ms), summarize(impl[n]),
+                     note=f"corrected_stack from (stack, mask, hyper-parameters) alone: rel diff {e:.3g}")
+
+
 TOL_K = 5e-5         # translated kernel formulas (Float64) vs the real float32 formulas, times the phase conditioning
 
 
-def run_kernel_full(ctx, drv, case, dp, cap, impl, sub, floor, cond, mapping, stack):
+def run_kernel_full(ctx, drv, case, dp, cap, impl, sub, floor, cond, mapping, stack, pix_sub=None, qgrid=None):
     """the kernel formulas INSIDE the model (translated from the source on this run) against the real code: detector-plane
     probe, aperture weights, Butterworth envelope, parallax gradient / contrast-transfer sign, the per-pixel kernel factor
     and power of `_return_kernel_contributions`, and the WHOLE reconstruction from (stack, mask pixels, hyper-parameters)
@@ -724,9 +802,14 @@ def run_kernel_full(ctx, drv, case, dp, cap, impl, sub, floor, cond, mapping, st
     r, c = case["scan"]
     n = len(sub)
     N, M = u * r, u * c
-    K, P, W, env, bfc, qxa, qya, probe, grad_k, sign_q = (cap[k] for k in ("K", "P", "W", "env", "bfc", "qxa", "qya", "probe", "grad_k", "sign_q"))
     lam = wavelength(case["E"])
     ab = canon_ab(case["ab"].items())
+    if cap is None:
+        # no internal stage available (the private kernel method is gone): only the WHOLE reconstruction from the
+        # hyper-parameters is compared, on problems the model itself finds well-conditioned
+        run_reconstruct_full_only(ctx, drv, case, dp, impl, sub, floor, cond, mapping, stack, pix_sub, qgrid, ab)
+        return
+    K, P, W, env, bfc, qxa, qya, probe, grad_k, sign_q = (cap[k] for k in ("K", "P", "W", "env", "bfc", "qxa", "qya", "probe", "grad_k", "sign_q"))
     pix = [(int(a), int(b)) for a, b in zip(bfc.bf_inds_i.tolist(), bfc.bf_inds_j.tolist())]
     base = kgeom_req(case, dp, ab, case["rot"])
     base.update({"pix_i": [q[0] for q in pix], "pix_j": [q[1] for q in pix]})
@@ -916,7 +999,10 @@ def run_parallax(ctx, drv, case, stack, tag):
         return
     g = _rng(case["sched_seed"] ^ 0x99)
     _, pcalls, _ = capture(dp, pc, submask)
-    grad_real = pcalls[0][0][8].double().numpy()
+    try:
+        grad_real = pcalls[0][0][8].double().numpy()
+    except (TypeError, IndexError, AttributeError):
+        grad_real = None          # internal stage not available: the closed form is judged on the public result only
     got = recon(dp, pc, bf_mask=submask, b=g.randint(1, n)).reshape(n, -1).sum(axis=0)
     N, M = u * r, u * c
     # polar coefficients as the code standardises them
@@ -963,7 +1049,7 @@ def run_parallax(ctx, drv, case, stack, tag):
     # the code's gradient (aberration_surface_cartesian_gradients at the rotated pixel) vs 2*pi*shift of the closed form
     grad_model = np.array([[2 * math.pi * float(x[0]) * pc["sx"] / u, 2 * math.pi * float(x[1]) * pc["sy"] / u] for x in shifts])
     gscale = max(maxabs(grad_model), 1e-30)
-    gerr = maxabs(grad_real - grad_model) / gscale if maxabs(grad_model) > 0 else maxabs(grad_real)
+    gerr = 0.0 if grad_real is None else (maxabs(grad_real - grad_model) / gscale if maxabs(grad_model) > 0 else maxabs(grad_real))
     ctx.stat_max("gradient_rel", gerr)
     ctx.count()
     if not gerr <= 2e-5:
@@ -1306,7 +1392,7 @@ def run_history(ctx, drv, hc):
         ok, e = close(got, want, TOL_BATCH, floor)
         ctx.stat_max("history_vs_fresh_rel", e)
         if not ok:
-            kern = dp._normalize_kernel_name(sc["alias"])
+            kern = {a: k for k, al in ALIASES.items() for a in al}.get(sc["alias"].lower(), "unknown")
             ctx.pred_fail(f"history-{kern}", f"step {t} of a call history on one object differs from the same call on a fresh "
                           "object with the same effective hyper-parameters (the result depends on earlier calls)", dict(hc, step=t),
                           observed={"rel_diff": e, "effective": {"ab": eff_ab, "rot": float(eff_rot)}, **summarize(got)},
@@ -1388,6 +1474,8 @@ def run_bad_step(ctx, hc, t, st, dp, settings, odict, m, bits, fb, gpts):
         kw["b"] = 1 if n > 1 else kw["b"]
         at = 2 + st["k"] % max(1, n - 1) if n > 1 else 1        # raise on the at-th call (after at-1 batches went through)
         cnt = [0]
+        if fault == "kernel-call-fault" and getattr(type(dp), "_return_kernel_contributions", None) is None:
+            fault = "ifft-fault"        # the private method is gone: fall back to the library-level hook
         if fault == "kernel-call-fault":
             orig = type(dp)._return_kernel_contributions.__get__(dp)
 
@@ -1399,15 +1487,17 @@ def run_bad_step(ctx, hc, t, st, dp, settings, odict, m, bits, fb, gpts):
             dp._return_kernel_contributions = wrap
             undo.append(lambda: dp.__dict__.pop("_return_kernel_contributions", None))
         else:
-            real_ifft2 = torch.fft.ifft2
+            # library-level hook: every inverse transform the call makes (ifft2 or its spelling ifftn)
+            for nm_ in ("ifft2", "ifftn"):
+                real_f = getattr(torch.fft, nm_)
 
-            def ifft2(*a, **k):
-                cnt[0] += 1
-                if cnt[0] == at:
-                    raise exc("injected fault in a callee")
-                return real_ifft2(*a, **k)
-            torch.fft.ifft2 = ifft2
-            undo.append(lambda: setattr(torch.fft, "ifft2", real_ifft2))
+                def hooked(*a, _f=real_f, **k):
+                    cnt[0] += 1
+                    if cnt[0] == at:
+                        raise exc("injected fault in a callee")
+                    return _f(*a, **k)
+                setattr(torch.fft, nm_, hooked)
+                undo.append(lambda nm_=nm_, real_f=real_f: setattr(torch.fft, nm_, real_f))
     raised = "no-exception"
     try:
         recon(dp, sc, **kw)
@@ -1691,20 +1781,44 @@ def run_aliases(ctx, drv, rng):
             s[rng.below(len(s))] = rng.choice("abcxyz-_ 1")
         names.append("".join(s))
     valid = {a: k for k, al in ALIASES.items() for a in al}
-    for nm in names:
+    # PUBLIC API only: reconstruct(deconvolution_kernel=<name>) must equal, bit for bit, reconstruct(deconvolution_kernel=<its
+    # canonical kernel>), and an unknown name must raise ValueError there
+    kw = dict(upsampling_factor=1, q_lowpass=None, q_highpass=None, parallax_flip_phase=False, verbose=False)
+    refs = {}
+    for k in KERNELS:
+        dp.reconstruct(deconvolution_kernel=k, **kw)
+        refs[k] = dp.corrected_stack.detach().numpy().copy()
+
+    def resolve_public(nm):
         try:
-            impl = {"ok": dp._normalize_kernel_name(nm)}
+            dp.reconstruct(deconvolution_kernel=nm, **kw)
         except Exception as e:  # noqa
-            impl = {"err": type(e).__name__}
+            return {"err": type(e).__name__}
+        got = dp.corrected_stack.detach().numpy()
+        hits = [k for k in KERNELS if got.shape == refs[k].shape and np.array_equal(got, refs[k])]
+        return {"ok": hits[0] if hits else "<result of no kernel>"}
+
+    private = getattr(dp, "_normalize_kernel_name", None)      # internal stage, only if the helper still exists under this name
+    if private is None:
+        ctx.extra["internal-stage-skipped:_normalize_kernel_name"] = "private helper not found; aliases judged through reconstruct() only"
+    for nm in names:
+        impl = resolve_public(nm)
         m = drv.ask({"op": "normalize", "name": nm})
         ctx.count()
         ctx.dist["alias:" + ("known" if nm.lower() in valid else "unknown")] += 1
         if m != impl:
-            ctx.disagree("alias", {"name": nm}, m, impl, note="_normalize_kernel_name")
+            ctx.disagree("alias", {"name": nm}, m, impl, note="kernel the public reconstruct() resolves the name to")
+        if private is not None:
+            try:
+                pimpl = {"ok": private(nm)}
+            except Exception as e:  # noqa
+                pimpl = {"err": type(e).__name__}
+            if m != pimpl:
+                ctx.disagree("alias-internal", {"name": nm}, m, pimpl, note="_normalize_kernel_name")
         want = {"ok": valid[nm.lower()]} if nm.lower() in valid else {"err": "ValueError"}
         if impl != want:
-            ctx.pred_fail("alias-table", "kernel alias does not resolve to its kernel / unknown name not rejected",
-                          {"alias_name": nm}, observed=impl, required=want)
+            ctx.pred_fail("alias-table", "reconstruct(deconvolution_kernel=<alias>) is not the reconstruction of its kernel / unknown "
+                          "name not rejected with ValueError", {"alias_name": nm}, observed=impl, required=want)
 
 
 # ---------------------------------------------------------------------------------------
